@@ -19,7 +19,9 @@ RULE = ("case = layout (1..8 entries: any integer type / REAL32 / REAL64 with it
         "content + list of (variable, value) writes. Enumerated: every data type at every bit offset 0..63 "
         "(filler fields in front), with boundary values, and all 2^len values of every sub-byte field "
         "length at several offsets; Hypothesis draws layouts, frames and values. Oracle: big-integer "
-        "bit-field model (read = field of F, write changes exactly the field's bits, length = ceil(total/8)). "
+        "bit-field model (read = field of F, write changes exactly the field's bits, length = ceil(total/8)). Entries may be "
+        "record members mapped by numeric sub-index, and may declare LowLimit/HighLimit (advisory) with values "
+        "written on both sides of them. "
         "Non-trivial = layout has a field with offset % 8 != 0 or length % 8 != 0; distinct = canonical JSON.")
 ASSUMPTIONS = [
     "only values inside the field's range are written (the quantifier says 'all 2^len field values')",
@@ -40,7 +42,9 @@ def make_map(layout, pre=None, via="add", pre_same=None, own_clear=True, reread=
                    read() itself replaces whatever the map held
     reread         read(from_od=True) is repeated that many times on the same map object
     pre_same       a permutation of range(len(layout)): the SAME objects were mapped in that order
-                   before (and looked up through the node), then clear() and the real order"""
+                   before (and looked up through the node), then clear() and the real order
+    A layout entry may carry "sub" (1..254): the mapped object is then member `sub` of a record, mapped by
+    its numeric sub-index; "lim" [lo, hi]: the object declares these limits (LowLimit/HighLimit)."""
     import canopen
     mapping = [{"sub": 0, "name": "n", "dt": rc.UNSIGNED8},
                {"sub": 1, "name": "e", "dt": rc.UNSIGNED32}]
@@ -52,13 +56,20 @@ def make_map(layout, pre=None, via="add", pre_same=None, own_clear=True, reread=
         com[2]["default"] = 255
         mapping = [{"sub": 0, "name": "n", "dt": rc.UNSIGNED8, "default": len(layout)}] + [
             {"sub": k + 1, "name": f"e{k + 1}", "dt": rc.UNSIGNED32,
-             "default": ((0x2000 + k) << 16) | e["len"]} for k, e in enumerate(layout)]
+             "default": ((0x2000 + k) << 16) | (e.get("sub", 0) << 8) | e["len"]} for k, e in enumerate(layout)]
     spec = [
         {"kind": "record", "index": 0x1400, "name": "RPDO 1 comm", "members": com},
         {"kind": "array", "index": 0x1600, "name": "RPDO 1 map", "members": mapping},
     ]
     for k, e in enumerate(layout):
-        spec.append({"kind": "var", "index": 0x2000 + k, "name": f"fld{k}", "dt": e["dt"], "pdo": True})
+        lim = e.get("lim") or (None, None)
+        if e.get("sub"):
+            spec.append({"kind": "record", "index": 0x2000 + k, "name": f"fld{k}", "members": [
+                {"sub": 0, "name": "n", "dt": rc.UNSIGNED8},
+                {"sub": e["sub"], "name": "m", "dt": e["dt"], "pdo": True, "min": lim[0], "max": lim[1]}]})
+        else:
+            spec.append({"kind": "var", "index": 0x2000 + k, "name": f"fld{k}", "dt": e["dt"], "pdo": True,
+                         "min": lim[0], "max": lim[1]})
     for k, e in enumerate(pre or []):
         spec.append({"kind": "var", "index": 0x2100 + k, "name": f"p{k}", "dt": e["dt"], "pdo": True})
     node = canopen.RemoteNode(3, build_od(spec))
@@ -67,7 +78,7 @@ def make_map(layout, pre=None, via="add", pre_same=None, own_clear=True, reread=
 
     def add(index, e):
         full = rc.width(e["dt"])
-        return pmap.add_variable(index, 0, None if e["len"] == full else e["len"])
+        return pmap.add_variable(index, e.get("sub", 0), None if e["len"] == full else e["len"])
 
     if pre:
         # the same map object held another (typically longer) mapping before: re-mapped after clear()
@@ -80,7 +91,7 @@ def make_map(layout, pre=None, via="add", pre_same=None, own_clear=True, reread=
         for k in pre_same:
             add(0x2000 + k, layout[k])
         for k in pre_same:                       # the application looks its variables up ...
-            _ = node.rpdo[f"fld{k}"].offset
+            _ = node.rpdo[f"fld{k}.m" if layout[k].get("sub") else f"fld{k}"].offset
             _ = node.pdo[0x2000 + k].offset
         pmap.clear()                             # ... and then re-maps them in another order
     if via == "from_od":
@@ -93,13 +104,14 @@ def make_map(layout, pre=None, via="add", pre_same=None, own_clear=True, reread=
     return node, pmap, vars_
 
 
-def resolve(node, pmap, vars_, k, lookup):
+def resolve(node, pmap, vars_, k, lookup, member=False):
+    name = f"fld{k}.m" if member else f"fld{k}"
     if lookup == "node_name":
-        return node.rpdo[f"fld{k}"]
+        return node.rpdo[name]
     if lookup == "node_index":
         return node.pdo[0x2000 + k]
     if lookup == "map_name":
-        return pmap[f"fld{k}"]
+        return pmap[name]
     if lookup == "map_pos":
         return pmap[k]
     return vars_[k]
@@ -165,7 +177,7 @@ def run_case(case) -> Outcome:
             return Outcome(nontrivial, klass, D)
         lookup = case.get("lookup", "direct")
         if lookup != "direct":
-            vars_ = [resolve(node, pmap, vars_, k, lookup) for k in range(len(layout))]
+            vars_ = [resolve(node, pmap, vars_, k, lookup, bool(layout[k].get("sub"))) for k in range(len(layout))]
     except Exception as e:
         bad("add_variable-raises", f"{layout}: {type(e).__name__}: {e}")
         return Outcome(nontrivial, klass, D)
@@ -327,6 +339,13 @@ def layout_case(draw):
         if ln is None:
             ln = draw(st.integers(1, min(8, remaining)))
         layout.append({"dt": dt, "len": ln})
+        if draw(st.integers(0, 3)) == 0:
+            layout[-1]["sub"] = draw(st.sampled_from([1, 2, 7, 254]))
+        if dt in rc.INTEGERS and draw(st.integers(0, 4)) == 0:
+            # declared limits (they are advisory: the library logs a warning, nothing else)
+            lo_t, hi_t = rc.int_range(dt)
+            a, b = sorted((draw(st.integers(lo_t, hi_t)), draw(st.integers(lo_t, hi_t))))
+            layout[-1]["lim"] = [a, b]
         remaining -= ln
     frame = draw(st.one_of(st.just(bytes(8)), st.just(b"\xff" * 8), st.binary(min_size=8, max_size=8)))
     ops = []
@@ -400,6 +419,16 @@ def config_path_cases():
         yield dict({"layout": lay, "frame": bytes([0xA5] * 8), "via": "from_od", "lookup": "direct",
                     "ops": [{"var": 0, "v": 9}, {"var": 1, "v": -2}, {"var": 2, "v": 200}, {"var": 3, "v": True}]},
                    **extra)
+    # record members mapped by numeric sub-index, with sub-byte lengths; objects that declare limits
+    mlay = [{"dt": rc.UNSIGNED8, "len": 5, "sub": 2}, {"dt": rc.BOOLEAN, "len": 1, "sub": 1},
+            {"dt": rc.INTEGER8, "len": 3, "sub": 254, "lim": [0, 2]}, {"dt": rc.INTEGER16, "len": 16, "sub": 3},
+            {"dt": rc.UNSIGNED8, "len": 8, "lim": [2, 10]}, {"dt": rc.INTEGER32, "len": 32, "lim": [-5, 5]}]
+    for via in ("add", "from_od"):
+        for lookup in ("direct", "node_name", "node_index", "map_name", "map_pos"):
+            yield {"layout": mlay, "frame": bytes([0xC3] * 8), "via": via, "lookup": lookup,
+                   "ops": [{"var": 0, "v": 21}, {"var": 1, "v": True}, {"var": 2, "v": -4}, {"var": 3, "v": -300},
+                           {"var": 4, "v": 200}, {"var": 4, "v": 0}, {"var": 5, "v": -(2 ** 31)},
+                           {"var": 5, "v": 2 ** 31 - 1}, {"var": 2, "v": 3}]}
     for perm in ([3, 2, 1, 0], [1, 0, 3, 2], [2, 3, 0, 1]):
         for lookup in ("node_name", "node_index", "map_name"):
             yield {"layout": lay, "frame": bytes(8), "pre_same": perm, "lookup": lookup,
